@@ -84,7 +84,7 @@ def run(ctx):
             ctx.report(r_casc, k, "removing a %s (%s) never consults %s, which records annotations that depend on it: those annotations survive with a dangling reference" % (kind, fn.qual, idx), fn.file, fn.line)
 
     # ---------------- DEDUP
-    r_dedup = ctx.rule("C02.DEDUP", "a cascade that gathers annotation handles from several index rows removes each annotation once (set, not list)")
+    r_dedup = ctx.rule("C02.DEDUP", "a cascade that gathers annotation handles from several index rows removes each annotation once (a set), or tolerates repeats (presence test before each removal)")
     n_dd = 0
     for htype, (kind, (fname, sty, tr)) in ROUTINES.items():
         if not tr:
@@ -113,7 +113,8 @@ def run(ctx):
             n_dd += 1
             ty_, init, line = decl[src]
             r_dedup.hit("%s:%s" % (kind, src), sample={"routine": fn.qual, "collection": src, "type": ty_ or init})
-            if not re.search(r"(BTreeSet|HashSet)", ty_ + " " + init):
+            guarded_ = any(c["method"] == "remove_annotation_if_present" for c in find(lp["body"], "mcall")) or re.search(r"\bhas\(", unparse(lp["body"]))
+            if not re.search(r"(BTreeSet|HashSet)", ty_ + " " + init) and not guarded_:
                 ctx.report(r_dedup, "%s:%s" % (kind, src), "%s gathers `%s` from several index rows (flatten) into %s and removes each element: an annotation listed in two rows is removed twice and the second removal fails, aborting the cascade half-way" % (fn.qual, src, ty_ or init or "a list"), fn.file, line)
     ctx.floor(r_dedup, n_dd, 2, "multi-row cascades")
 
